@@ -131,7 +131,15 @@ def run(ctx):
     ctx.require_count("R13.1", 3)
     # R13.5
     cuts = []
-    for x in A.walk(u.body(fn)):
+    # scan_deps itself and the helpers of the unit it calls (the path arithmetic may live in a static function)
+    hosts13 = [u.body(fn)]
+    for c_ in A.calls_in(u.body(fn)):
+        n_ = A.callee_name(c_)
+        if n_ and n_ != "scan_deps":
+            for h_ in u.functions.get(n_, []):
+                if u.body(h_) is not None:
+                    hosts13.append(u.body(h_))
+    for x in (y_ for hb_ in hosts13 for y_ in A.walk(hb_)):
         if x.get("kind") == "CXXMemberCallExpr":
             cal = A.strip_casts(A.kids(x)[0])
             if cal.get("kind") == "MemberExpr" and cal.get("name") in ("find", "rfind", "find_first_of", "find_last_of", "find_first_not_of", "find_last_not_of"):
